@@ -4,7 +4,8 @@ import Uquic.Proofs.WireSplit
 
 set_option linter.unusedSimpArgs false
 
-namespace Uquic.Proofs.Wire
+namespace Uquic.Proofs.WireMore
+open Uquic.Proofs.Wire
 open Uquic.Model.Wire Uquic.Model.Wire.Varint
 
 theorem datagram_bytes_length (dlp : Bool) (data : Bytes) (hd : data.length ≤ maxVarInt8) :
@@ -52,4 +53,4 @@ theorem datagram_maxDataLen_witness :
   · rw [datagram_bytes_length true _ (by rw [List.length_replicate]; decide), List.length_replicate]
     decide
 
-end Uquic.Proofs.Wire
+end Uquic.Proofs.WireMore
